@@ -137,6 +137,7 @@ class PDA:
         """
         state = self._pda_obj_creator.to_state(state)
         self._final_states.add(state)
+        self._states.add(state)
 
     @property
     def start_state(self):
